@@ -12,5 +12,6 @@ CONSTANTS
   Drivers = {"iour", "poll"}
   Impls = {"blocking", "pidfd"}
   Families = {"echo", "consumer", "producer", "exit", "status", "held"}
+  BlockingChildPipes = FALSE
 SPECIFICATION Spec
-INVARIANTS TypeOK InOrder Conservation WaitSafe CompleteAtEnd NoDeadlock LiveAtTerminal
+INVARIANTS TypeOK InOrder Conservation WaitSafe CompleteAtEnd NoDeadlockStrict LiveAtTerminal
